@@ -259,3 +259,16 @@ func (e *Engine) pos(p token.Pos) string {
 	ps := e.Fset.Position(p)
 	return fmt.Sprintf("%s:%d", filepath.Base(ps.Filename), ps.Line)
 }
+
+// globalByName finds a package-level variable of any loaded package (e.g. context.Canceled).
+func (e *Engine) globalByName(pkg, name string) *ssa.Global {
+	for _, p := range e.Prog.AllPackages() {
+		if p.Pkg.Path() == pkg {
+			if g, ok := p.Members[name].(*ssa.Global); ok {
+				return g
+			}
+		}
+	}
+	unsup("global %s.%s not loaded", pkg, name)
+	return nil
+}
